@@ -14,6 +14,9 @@ static unsigned long n_edges = 0;           // dynamic count of callbacks since 
 typedef void (*hook_t)(uint32_t);
 static hook_t hook = nullptr;                // scheduler yield hook (C19)
 static bool recording = true;
+struct Range { uint32_t* lo; uint32_t* hi; };
+static Range ranges[16];
+static int n_ranges = 0;           // guard arrays registered so far (one per instrumented DSO / TU group)
 
 inline void ensure_cap(uint32_t n) {
    if (n + 1 <= hit_cap) return;
@@ -34,6 +37,7 @@ inline uint32_t count_hit() { uint32_t c = 0; for (uint32_t i = 1; i <= n_guards
 
 extern "C" void __sanitizer_cov_trace_pc_guard_init(uint32_t* start, uint32_t* stop) {
    if (start == stop || *start) return;
+   if (covsig::n_ranges < 16) { covsig::ranges[covsig::n_ranges].lo = start; covsig::ranges[covsig::n_ranges].hi = stop; covsig::n_ranges++; }
    for (uint32_t* x = start; x < stop; x++) *x = ++covsig::n_guards;
    covsig::ensure_cap(covsig::n_guards);
 }
